@@ -70,13 +70,16 @@ pub fn minimise(def: &CheckDef, fam: &Family, plan: Plan, viol: &Violation) -> (
         if fam.keep_workload && pass > 0 {
             break;
         }
+        // twin families: frames common to both executions shape the traffic the twin-only
+        // frames were forged against; only the twin-only ones (which must have no effect) may go
+        let has_twin = best.timeline.iter().any(|t| matches!(t.op, Op::Inject { twin: true, .. }));
         let removable: Vec<usize> = best
             .timeline
             .iter()
             .enumerate()
             .filter(|(_, t)| match (&t.op, pass) {
                 // adversarial families: only the adversary's own injections may go
-                (Op::Inject { .. }, 0) => true,
+                (Op::Inject { twin, .. }, 0) => *twin || !has_twin,
                 (_, _) if fam.keep_workload => false,
                 (Op::Create { .. }, _) => false,
                 // the fair phase (applications keep stepping) is an assumption of the liveness
